@@ -1,9 +1,17 @@
 #!/bin/bash
-# usage: diffcheck.sh <diff> [servcheck binary]  — applies the diff in scratch worktree /tmp/scratch/w2 (never /repo), builds, runs servcheck -all, resets.
+# usage: diffcheck.sh <diff> [servcheck binary] [max lines] — applies the diff in scratch worktree $W (default /tmp/scratch/w2, never /repo), builds, runs servcheck -all, resets.
+# A run that ends in anything but exit 0 (held) or 1 (violations reported) is printed as CHECK-BROKEN: a crash must not look like silence.
 W=${W:-/tmp/scratch/w2}; BIN=${2:-/verif/bin/servcheck}
 cd $W && git checkout -q --detach $(git -C /repo rev-parse HEAD) && git checkout -q -- . && git clean -fdq
-if ! git apply "$1" 2>/tmp/scratch/apply.err; then echo "NOAPPLY $(head -2 /tmp/scratch/apply.err)"; exit 3; fi
+if ! git apply "$1" 2>/tmp/scratch/apply.err.$$; then echo "NOAPPLY $(head -2 /tmp/scratch/apply.err.$$)"; rm -f /tmp/scratch/apply.err.$$; exit 3; fi
+rm -f /tmp/scratch/apply.err.$$
 export GOFLAGS=-mod=mod GOPROXY=off GOSUMDB=off GOTOOLCHAIN=local
-if ! go build ./... 2>/tmp/scratch/build2.err; then echo "NOBUILD"; head -3 /tmp/scratch/build2.err; git checkout -q -- .; exit 4; fi
-$BIN -all -repo $W -verif ${V:-/tmp/scratch/v2} 2>&1 | grep -E "^  rule |^  at |CHECK-BROKEN|quick: .* [1-9][0-9]* violations" | head -${3:-30}
+if ! go build ./... 2>/tmp/scratch/build2.err.$$; then echo "NOBUILD"; head -3 /tmp/scratch/build2.err.$$; rm -f /tmp/scratch/build2.err.$$; git checkout -q -- .; exit 4; fi
+rm -f /tmp/scratch/build2.err.$$
+$BIN -all -repo $W -verif ${V:-/tmp/scratch/v2} > /tmp/scratch/dc.out.$$ 2>&1
+rc=$?
+grep -E "^  rule |^  at |CHECK-BROKEN|^panic:|^fatal error|quick: .* [1-9][0-9]* violations" /tmp/scratch/dc.out.$$ | head -${3:-30}
+if [ $rc -ne 0 ] && [ $rc -ne 1 ]; then echo "CHECK-BROKEN servcheck ended with exit status $rc"; fi
+if [ $rc -eq 1 ] && ! grep -q "^VIOLATION" /tmp/scratch/dc.out.$$; then echo "CHECK-BROKEN exit status 1 without a VIOLATION line"; fi
+rm -f /tmp/scratch/dc.out.$$
 git checkout -q -- . && git clean -fdq
